@@ -8,14 +8,20 @@
 //
 // Line protocol (addresses are 32-bit lower-case hex, `-` = absent):
 //
-//	new <net>/<plen> <gateway> <leaseSeconds>
-//	disc m<k> <giaddr> <cid>                  DISCOVER  (cid = c<n>: option 82 circuit-id, or -)
+//	new <net>/<plen> <gateway> <leaseSeconds> [<nexus table>]
+//	                                          5th token present = Nexus/HTTP-allocator mode (Demo E): m1:<ip>,m3:<ip>,… or -
+//	                                          are the allocations the (in-process) Nexus API answers LookupIPv4 with
+//	disc m<k> <giaddr> <cid>                  DISCOVER  (cid = c<n>: option 82 circuit-id, or - ; malformed variants:
+//	                                          e = circuit-id sub-option of length 0, r = remote-id only, x = truncated TLV)
 //	req  m<k> <requested> <ciaddr> <giaddr> <cid>
 //	rel  m<k>
 //	dec  m<k> <requested>
 //	inf  m<k> <ciaddr>
 //	tick <minutes>                            virtual time passes; the real cleanup ticker fires each minute
 //	cleanup                                   one explicit cleanupExpiredLeases pass
+//	gap <disc|req|rel|dec …>                  one cleanup pass with the given message handled BETWEEN its read-locked scan
+//	                                          and its write-locked removal (where another goroutine's handler can run);
+//	                                          observation `gap <inner reply> …`, or `gap notrun …` when nothing had expired
 //
 // Observation:  <reply> L=<leases> C=<circuit index> P=<pool allocated> A=<free list> U=<unavailable>
 //
@@ -31,6 +37,8 @@ import (
 	"fmt"
 	"math/rand"
 	"net"
+	"net/http"
+	"net/http/httptest"
 	"os"
 	"sort"
 	"strconv"
@@ -41,6 +49,7 @@ import (
 
 	"github.com/codelaboratoryltd/bng/pkg/dhcp"
 	"github.com/codelaboratoryltd/bng/pkg/ebpf"
+	"github.com/codelaboratoryltd/bng/pkg/nexus"
 	"github.com/insomniacslk/dhcp/dhcpv4"
 	"go.uber.org/zap"
 )
@@ -94,11 +103,36 @@ func macTokStr(s string) string {
 	return macTok(m)
 }
 
-func cidBytes(tok string) []byte {
-	if tok == "-" {
+// opt82Data builds the value of option 82 for a cid token: c<n> = circuit-id "cid<n>" + remote-id;
+// e = circuit-id sub-option of length 0 + remote-id; r = remote-id only; x = a circuit-id TLV whose length
+// runs past the end of the option; - = no option 82.
+func opt82Data(tok string) []byte {
+	rem := []byte{2, 4, 'r', 'e', 'm', '1'}
+	switch {
+	case tok == "-":
 		return nil
+	case tok == "e":
+		return append([]byte{1, 0}, rem...)
+	case tok == "r":
+		return rem
+	case tok == "x":
+		return []byte{1, 200, 'c', 'i', 'd'}
+	case strings.HasPrefix(tok, "c"):
+		cid := []byte("cid" + strings.TrimPrefix(tok, "c"))
+		return append(append([]byte{1, byte(len(cid))}, cid...), rem...)
 	}
-	return []byte("cid" + strings.TrimPrefix(tok, "c"))
+	return nil
+}
+
+func validCidTok(tok string) bool {
+	if tok == "-" || tok == "e" || tok == "r" || tok == "x" {
+		return true
+	}
+	if !strings.HasPrefix(tok, "c") {
+		return false
+	}
+	_, err := strconv.Atoi(tok[1:])
+	return err == nil
 }
 
 func cidTok(b []byte) string {
@@ -140,6 +174,36 @@ type run struct {
 	t0     time.Time
 	cancel context.CancelFunc
 	xid    uint32
+	dead   bool // the real code panicked while holding its lease lock: nothing more can be asked of it
+}
+
+// handlerTransport serves HTTP requests from a handler in-process (no sockets, no goroutines): the real
+// nexus.HTTPAllocator builds its URLs and decodes the JSON, the "Nexus API" is the handler below.
+type handlerTransport struct{ h http.Handler }
+
+func (t handlerTransport) RoundTrip(req *http.Request) (*http.Response, error) {
+	rec := httptest.NewRecorder()
+	t.h.ServeHTTP(rec, req)
+	return rec.Result(), nil
+}
+
+// nexusAPI answers GET /api/v1/pools/<id> and GET /api/v1/allocations/<mac> from a fixed table.
+func nexusAPI(cidr, gw string, table map[string]string) http.Handler {
+	return http.HandlerFunc(func(w http.ResponseWriter, req *http.Request) {
+		switch {
+		case strings.HasPrefix(req.URL.Path, "/api/v1/pools/"):
+			fmt.Fprintf(w, `{"id":"nx","cidr":%q,"prefix":32,"gateway":%q}`, cidr, gw)
+		case strings.HasPrefix(req.URL.Path, "/api/v1/allocations/"):
+			mac := strings.TrimPrefix(req.URL.Path, "/api/v1/allocations/")
+			if ip, ok := table[mac]; ok {
+				fmt.Fprintf(w, `{"pool_id":"nx","subscriber_id":%q,"ip":%q}`, mac, ip)
+				return
+			}
+			http.Error(w, "not found", http.StatusNotFound)
+		default:
+			http.Error(w, "not found", http.StatusNotFound)
+		}
+	})
 }
 
 func (comp) NewRun() hx.Run { return &run{} }
@@ -151,7 +215,7 @@ func (r *run) Close() {
 	}
 }
 
-func (r *run) packet(mt dhcpv4.MessageType, mac net.HardwareAddr, requested, ciaddr, giaddr net.IP, cid []byte) *dhcpv4.DHCPv4 {
+func (r *run) packet(mt dhcpv4.MessageType, mac net.HardwareAddr, requested, ciaddr, giaddr net.IP, opt82 []byte) *dhcpv4.DHCPv4 {
 	r.xid++
 	p, err := dhcpv4.New(
 		dhcpv4.WithTransactionID(dhcpv4.TransactionID{byte(r.xid >> 24), byte(r.xid >> 16), byte(r.xid >> 8), byte(r.xid)}),
@@ -170,10 +234,8 @@ func (r *run) packet(mt dhcpv4.MessageType, mac net.HardwareAddr, requested, cia
 	if giaddr != nil {
 		p.GatewayIPAddr = giaddr
 	}
-	if cid != nil {
-		data := append([]byte{1, byte(len(cid))}, cid...)
-		data = append(data, 2, 4, 'r', 'e', 'm', '1')
-		p.Options.Update(dhcpv4.Option{Code: dhcpv4.OptionRelayAgentInformation, Value: dhcpv4.OptionGeneric{Data: data}})
+	if opt82 != nil {
+		p.Options.Update(dhcpv4.Option{Code: dhcpv4.OptionRelayAgentInformation, Value: dhcpv4.OptionGeneric{Data: opt82}})
 	}
 	// the packet goes over the wire format, as it would on a socket
 	q, err := dhcpv4.FromBytes(p.ToBytes())
@@ -270,13 +332,61 @@ func (r *run) snapshot() string {
 	return fmt.Sprintf("L=%s C=%s P=%s A=%s U=%s", join(ls), join(cs), join(ps), join(as), join(us))
 }
 
-func (r *run) Do(op string) string {
+// msg handles one client message op (disc/req/rel/dec/inf) and returns the reply; ok=false: not a valid message op.
+func (r *run) msg(f []string) (reply string, ok bool) {
+	arg := func(i int) string {
+		if i < len(f) {
+			return f[i]
+		}
+		return "-"
+	}
+	switch f[0] {
+	case "disc":
+		if len(f) != 4 || !validCidTok(f[3]) {
+			return "", false
+		}
+		return r.send(r.packet(dhcpv4.MessageTypeDiscover, macOf(f[1]), nil, nil, hexIP(arg(2)), opt82Data(arg(3)))), true
+	case "req":
+		if len(f) != 6 || !validCidTok(f[5]) {
+			return "", false
+		}
+		return r.send(r.packet(dhcpv4.MessageTypeRequest, macOf(f[1]), hexIP(arg(2)), hexIP(arg(3)), hexIP(arg(4)), opt82Data(arg(5)))), true
+	case "rel":
+		if len(f) != 2 {
+			return "", false
+		}
+		return r.send(r.packet(dhcpv4.MessageTypeRelease, macOf(f[1]), nil, nil, nil, nil)), true
+	case "dec":
+		if len(f) != 3 {
+			return "", false
+		}
+		return r.send(r.packet(dhcpv4.MessageTypeDecline, macOf(f[1]), hexIP(arg(2)), nil, nil, nil)), true
+	case "inf":
+		if len(f) != 3 {
+			return "", false
+		}
+		return r.send(r.packet(dhcpv4.MessageTypeInform, macOf(f[1]), nil, hexIP(arg(2)), nil, nil)), true
+	}
+	return "", false
+}
+
+func (r *run) Do(op string) (obs string) {
 	f := hx.Fields(op)
 	if len(f) == 0 {
 		return "badop"
 	}
+	if r.dead {
+		return "dead"
+	}
+	defer func() {
+		// a panic of the real code is re-raised for hx.SafeDo to report; the server may hold its lease lock
+		if e := recover(); e != nil {
+			r.dead = true
+			panic(e)
+		}
+	}()
 	if f[0] == "new" {
-		if len(f) != 4 {
+		if len(f) != 4 && len(f) != 5 {
 			return "badop"
 		}
 		parts := strings.SplitN(f[1], "/", 2)
@@ -311,6 +421,26 @@ func (r *run) Do(op string) string {
 		if err != nil {
 			return "invalid"
 		}
+		if len(f) == 5 {
+			// Nexus / HTTP-allocator mode: LookupIPv4 is answered by an in-process "Nexus API"
+			table := map[string]string{}
+			if f[4] != "-" {
+				for _, item := range strings.Split(f[4], ",") {
+					kv := strings.SplitN(item, ":", 2)
+					if len(kv) != 2 || hexIP(kv[1]) == nil || !strings.HasPrefix(kv[0], "m") {
+						return "badop"
+					}
+					table[macOf(kv[0]).String()] = hexIP(kv[1]).String()
+				}
+			}
+			alloc := nexus.NewHTTPAllocator("http://nexus.invalid",
+				nexus.WithHTTPClient(&http.Client{Transport: handlerTransport{nexusAPI(base.String()+"/"+parts[1], gw.String(), table)}}))
+			srv.SetHTTPAllocator(alloc, "nx")
+		}
+		if r.cancel != nil { // a second `new` in one sequence: stop the first server's ticker
+			r.cancel()
+			syncWait()
+		}
 		r.srv, r.pool, r.conn = srv, pool, &fakeConn{}
 		ctx, cancel := context.WithCancel(context.Background())
 		r.cancel = cancel
@@ -324,39 +454,33 @@ func (r *run) Do(op string) string {
 	if r.srv == nil {
 		return "badop"
 	}
-	arg := func(i int) string {
-		if i < len(f) {
-			return f[i]
-		}
-		return "-"
-	}
 	var reply string
 	switch f[0] {
-	case "disc":
-		if len(f) != 4 {
+	case "disc", "req", "rel", "dec", "inf":
+		var ok bool
+		if reply, ok = r.msg(f); !ok {
 			return "badop"
 		}
-		reply = r.send(r.packet(dhcpv4.MessageTypeDiscover, macOf(f[1]), nil, nil, hexIP(arg(2)), cidBytes(arg(3))))
-	case "req":
-		if len(f) != 6 {
+	case "gap":
+		if len(f) < 2 || f[1] == "inf" {
 			return "badop"
 		}
-		reply = r.send(r.packet(dhcpv4.MessageTypeRequest, macOf(f[1]), hexIP(arg(2)), hexIP(arg(3)), hexIP(arg(4)), cidBytes(arg(5))))
-	case "rel":
-		if len(f) != 2 {
+		inner, ok, ran := "", true, false
+		r.srv.SetCleanupGapForVerif(func() {
+			ran = true
+			inner, ok = r.msg(f[1:])
+		})
+		func() {
+			defer r.srv.SetCleanupGapForVerif(nil)
+			r.srv.CleanupExpiredForVerif()
+		}()
+		if !ok {
 			return "badop"
 		}
-		reply = r.send(r.packet(dhcpv4.MessageTypeRelease, macOf(f[1]), nil, nil, nil, nil))
-	case "dec":
-		if len(f) != 3 {
-			return "badop"
+		if !ran {
+			inner = "notrun"
 		}
-		reply = r.send(r.packet(dhcpv4.MessageTypeDecline, macOf(f[1]), hexIP(arg(2)), nil, nil, nil))
-	case "inf":
-		if len(f) != 3 {
-			return "badop"
-		}
-		reply = r.send(r.packet(dhcpv4.MessageTypeInform, macOf(f[1]), nil, hexIP(arg(2)), nil, nil))
+		reply = "gap " + inner
 	case "tick":
 		if len(f) != 2 {
 			return "badop"
@@ -413,6 +537,11 @@ func (n net4) addrChoices() []string {
 }
 
 func randOp(r *rand.Rand, n net4, clients, cids int) string {
+	return randOpD(r, n, clients, cids, nil, 0)
+}
+
+// randOpD: extra = addresses outside the pool worth naming (the Nexus allocations); depth 1 = inside a gap
+func randOpD(r *rand.Rand, n net4, clients, cids int, extra []string, depth int) string {
 	m := fmt.Sprintf("m%d", 1+r.Intn(clients))
 	addrs := n.addrChoices()
 	gi, cid := "-", "-"
@@ -423,6 +552,19 @@ func randOp(r *rand.Rand, n net4, clients, cids int) string {
 		}
 	} else if r.Intn(12) == 0 {
 		cid = fmt.Sprintf("c%d", 1+r.Intn(cids)) // option 82 on an unrelayed packet
+	}
+	if r.Intn(14) == 0 {
+		cid = hx.Pick(r, []string{"e", "r", "x"}) // empty circuit-id / remote-id only / truncated TLV
+	}
+	if len(extra) > 0 && r.Intn(3) == 0 {
+		addrs = append(addrs, extra...) // Nexus allocations
+	}
+	if depth == 0 && r.Intn(25) == 0 { // a message handled inside the lock gap of a cleanup pass
+		inner := randOpD(r, n, clients, cids, extra, 1)
+		for strings.HasPrefix(inner, "tick") || strings.HasPrefix(inner, "cleanup") || strings.HasPrefix(inner, "inf") {
+			inner = randOpD(r, n, clients, cids, extra, 1)
+		}
+		return "gap " + inner
 	}
 	switch x := r.Intn(100); {
 	case x < 26:
@@ -459,20 +601,42 @@ func (comp) Gen(r *rand.Rand, tier string, emit func([]string)) {
 		nShort, nLong, nProto = 20000, 400, 800
 	}
 	nets := []net4{net29, net29, net29b, net30}
+	// configuration: lease 300 s (a multiple of the one-minute grid) or 290 s (expiry falls between the message
+	// instant and the ticker, so the cleanup's lock gap can be entered); one in five runs is in Nexus mode
+	config := func(n net4) (string, []string) {
+		lease := 300
+		if r.Intn(3) == 0 {
+			lease = 290
+		}
+		op := n.newOp(lease)
+		if r.Intn(5) != 0 {
+			return op, nil
+		}
+		switch r.Intn(3) {
+		case 0:
+			return op + " -", nil
+		case 1:
+			return op + " m1:a010005", []string{"a010005"}
+		default:
+			return op + " m1:a010005,m3:a010006", []string{"a010005", "a010006"}
+		}
+	}
 	for i := 0; i < nShort; i++ {
 		n := nets[r.Intn(len(nets))]
 		clients := 2 + r.Intn(3)
-		seq := []string{n.newOp(300)}
+		op, extra := config(n)
+		seq := []string{op}
 		for j, k := 0, 2+r.Intn(10); j < k; j++ {
-			seq = append(seq, randOp(r, n, clients, 2))
+			seq = append(seq, randOpD(r, n, clients, 2, extra, 0))
 		}
 		emit(seq)
 	}
 	// random to depth 200 with 6 clients on a /29
 	for i := 0; i < nLong; i++ {
-		seq := []string{net29.newOp(300)}
+		op, extra := config(net29)
+		seq := []string{op}
 		for j := 0; j < 200; j++ {
-			seq = append(seq, randOp(r, net29, 6, 3))
+			seq = append(seq, randOpD(r, net29, 6, 3, extra, 0))
 		}
 		emit(seq)
 	}
@@ -487,7 +651,7 @@ func (comp) Gen(r *rand.Rand, tier string, emit func([]string)) {
 // server WOULD answer on this network (first free address) only approximately: it simply names, for REQUEST,
 // a host address derived from the client's number, which after a few DISCOVERs is very often the offered one.
 func protoSeq(r *rand.Rand, n net4, clients, depth int) []string {
-	seq := []string{n.newOp(300)}
+	seq := []string{n.newOp(hx.Pick(r, []int{300, 300, 290}))}
 	for j := 0; j < depth; j++ {
 		k := 1 + r.Intn(clients)
 		m := fmt.Sprintf("m%d", k)
@@ -515,18 +679,23 @@ func protoSeq(r *rand.Rand, n net4, clients, depth int) []string {
 	return seq
 }
 
-// exhaustive: every sequence over a small alphabet.  Four scopes (the full product "4 clients x depth 6 x the whole
-// alphabet" is ~10^10 sequences and is not enumerable; these scopes cover it by depth OR by breadth):
+// exhaustive: every sequence over a small alphabet.  The property record's quantifier says "k<=4 exhaustively to
+// depth 6"; the full product "4 clients x depth 6 x the whole alphabet" is ~10^10 sequences and is NOT enumerated.
+// What is enumerated are six smaller scopes that cover it by depth OR by breadth:
 //
-//	A1: 2 clients, 11 letters, depth 5 on the /30 (ONE usable address) and depth 4 on the /29
-//	A2: 2 clients, depth 6, 7 letters, on the /30
+//	A1: 2 clients, 13 letters (incl. the exact-expiry `tick 5`, `tick 6`, `cleanup`, a relayed option-82 REQUEST),
+//	    depth 5 on the /30 (ONE usable address) and depth 4 on the /29
+//	A2: 2 clients, depth 6, 8 letters (incl. `tick 5` and `tick 6`), on the /30
 //	B : 3 clients, depth 4, 21 letters on the /29 (requested address in {first host, gateway, none})
 //	C : 4 clients, depth 3, 43 letters on the /29 (requested address in {two hosts, gateway, broadcast, network, outside, none})
+//	G : 2 clients, depth 4, 13 letters on the /30 with lease 290 s: messages handled INSIDE the lock gap of a cleanup
+//	    pass (`gap …`), exact ticks, two malformed option-82 letters
+//	N : Nexus mode, 3 clients, depth 3, 17 letters (Nexus allocation, local address, decline of the Nexus address)
 //
-// each followed by two closing DISCOVERs.  thorough: all of it (~0.57 million sequences); quick: a seeded sample.
+// each followed by two closing DISCOVERs.  thorough: all of it (~0.83 million sequences); quick: a seeded sample.
 func exhaustive(r *rand.Rand, tier string, emit func([]string)) {
 	type scope struct {
-		n     net4
+		newOp string
 		alpha []string
 		depth int
 		keep  int // quick tier: keep one in `keep`
@@ -537,7 +706,7 @@ func exhaustive(r *rand.Rand, tier string, emit func([]string)) {
 		n     net4
 		depth int
 		keep  int
-	}{{net30, 5, 60}, {net29, 4, 8}} {
+	}{{net30, 5, 130}, {net29, 4, 12}} {
 		n := nd.n
 		var a []string
 		for k := 1; k <= 2; k++ {
@@ -545,16 +714,17 @@ func exhaustive(r *rand.Rand, tier string, emit func([]string)) {
 			a = append(a, fmt.Sprintf("disc %s - -", m), fmt.Sprintf("req %s %x - - -", m, n.base+2),
 				"rel "+m, fmt.Sprintf("dec %s %x", m, n.base+2))
 		}
-		a = append(a, fmt.Sprintf("req m2 %x - %s c1", n.base+2, giaddrTok), fmt.Sprintf("req m1 %x - - c1", n.base+2), "tick 6")
-		scopes = append(scopes, scope{n, a, nd.depth, nd.keep})
+		a = append(a, fmt.Sprintf("req m2 %x - %s c1", n.base+2, giaddrTok), fmt.Sprintf("req m1 %x - - c1", n.base+2),
+			"tick 5", "tick 6", "cleanup")
+		scopes = append(scopes, scope{n.newOp(300), a, nd.depth, nd.keep})
 	}
 	// A2
 	{
 		n := net30
 		x := n.base + 2
 		a := []string{"disc m1 - -", fmt.Sprintf("req m1 %x - - -", x), "disc m2 - -", fmt.Sprintf("req m2 %x - - -", x),
-			fmt.Sprintf("dec m1 %x", x), "rel m1", "tick 6"}
-		scopes = append(scopes, scope{n, a, 6, 40})
+			fmt.Sprintf("dec m1 %x", x), "rel m1", "tick 5", "tick 6"}
+		scopes = append(scopes, scope{n.newOp(300), a, 6, 90})
 	}
 	// B, C
 	for _, sc := range []struct {
@@ -580,7 +750,30 @@ func exhaustive(r *rand.Rand, tier string, emit func([]string)) {
 			a = append(a, fmt.Sprintf("dec %s %x", m, n.base+2))
 		}
 		a = append(a, "tick 6", fmt.Sprintf("disc m2 %s c1", giaddrTok), fmt.Sprintf("req m1 %x - %s c1", n.base+2, giaddrTok))
-		scopes = append(scopes, scope{n, a, sc.depth, sc.keep})
+		scopes = append(scopes, scope{n.newOp(300), a, sc.depth, sc.keep})
+	}
+	// G: lease 290 s — at `tick 5` the lease has run out but the ticker has not fired yet
+	{
+		n := net30
+		x := n.base + 2
+		a := []string{"disc m1 - -", fmt.Sprintf("req m1 %x - - -", x), fmt.Sprintf("req m2 %x - - -", x), "rel m1",
+			"tick 5", "tick 1", "cleanup",
+			fmt.Sprintf("gap req m1 %x - - -", x), "gap rel m1", fmt.Sprintf("gap req m2 %x - - -", x),
+			fmt.Sprintf("gap dec m1 %x", x),
+			fmt.Sprintf("req m1 %x - %s e", x, giaddrTok), fmt.Sprintf("req m1 %x - %s x", x, giaddrTok)}
+		scopes = append(scopes, scope{n.newOp(290), a, 4, 6})
+	}
+	// N: Nexus mode; m1 is an activated subscriber (allocation 10.1.0.5), m2 and m3 live in the walled garden
+	{
+		n := net29
+		var a []string
+		for k := 1; k <= 3; k++ {
+			m := fmt.Sprintf("m%d", k)
+			a = append(a, fmt.Sprintf("disc %s - -", m), fmt.Sprintf("req %s a010005 - - -", m),
+				fmt.Sprintf("req %s %x - - -", m, n.base+2), "rel "+m, fmt.Sprintf("dec %s a010005", m))
+		}
+		a = append(a, "tick 6", fmt.Sprintf("req m2 %x - - -", n.gw))
+		scopes = append(scopes, scope{n.newOp(300) + " m1:a010005", a, 3, 3})
 	}
 	for _, sc := range scopes {
 		var rec func(prefix []string, depth int)
@@ -589,7 +782,7 @@ func exhaustive(r *rand.Rand, tier string, emit func([]string)) {
 				if tier != "thorough" && r.Intn(sc.keep) != 0 {
 					return
 				}
-				seq := append([]string{sc.n.newOp(300)}, prefix...)
+				seq := append([]string{sc.newOp}, prefix...)
 				// closing observers: what a fresh client and the first client are told afterwards
 				seq = append(seq, "disc m9 - -", "disc m1 - -")
 				emit(seq)
